@@ -62,10 +62,272 @@ Theorem rename_ghost_range_refuted :
     = Some (ENamedFun None [115;117;109] [ERange (Some t_renamed) (Some 1) pA1 pA2], []).
 Proof.
   split; [vm_compute; reflexivity|]. split; [|vm_compute; reflexivity].
-  vm_compute. intro H. inversion H as [| | | | | | | | |id name a a' HF| | | | | | |e He]; subst. Show.
-  - inversion HF as [|x y l l' Hxy Hl]; subst. inversion Hxy; subst; discriminate.
-  - discriminate.
+  vm_compute. intro H. inversion H as [| | | | | | | | |id name a a' HF| | | | | | |e He]; subst.
+  inversion HF as [|x y l l' Hxy Hl]; subst. inversion Hxy; subst; discriminate.
 Qed.
 
 Theorem rename_only_target_refuted : ~ rename_only_target_statement.
 Proof. intro H. exact (proj1 (proj2 rename_ghost_range_refuted) (H _ _ _)). Qed.
+
+(* ---- move_sheet: references are by name, and a name denotes the same sheet after the move -------- *)
+Lemma lookup_some_in {A} name (l : list (text * A)) a : lookup name l = Some a -> In (name, a) l.
+Proof.
+  induction l as [|[x b] r IH]; cbn [lookup]; [discriminate|].
+  destruct (text_eqb x name) eqn:E.
+  - intro H. inversion H; subst. apply text_eqb_eq in E. subst. left. reflexivity.
+  - intro H. right. auto.
+Qed.
+
+Lemma lookup_none_notin {A} name (l : list (text * A)) : lookup name l = None -> ~ In name (map fst l).
+Proof.
+  induction l as [|[x b] r IH]; cbn [lookup map fst]; [intros _ []|].
+  destruct (text_eqb x name) eqn:E; [discriminate|].
+  intros H [H1|H1]; [|exact (IH H H1)].
+  cbn in H1. subst. rewrite text_eqb_refl in E. discriminate.
+Qed.
+
+Lemma lookup_in_nodup {A} name (l : list (text * A)) a :
+  NoDup (map fst l) -> In (name, a) l -> lookup name l = Some a.
+Proof.
+  induction l as [|[x b] r IH]; cbn [lookup map fst]; [intros _ []|].
+  intros Hnd [H|H].
+  - inversion H; subst. rewrite text_eqb_refl. reflexivity.
+  - inversion Hnd as [|? ? Hnot Hnd']; subst.
+    destruct (text_eqb x name) eqn:E.
+    + apply text_eqb_eq in E. subst. exfalso. apply Hnot.
+      change name with (fst (name, a)). apply in_map. exact H.
+    + auto.
+Qed.
+
+Lemma lookup_notin_none {A} name (l : list (text * A)) : ~ In name (map fst l) -> lookup name l = None.
+Proof.
+  intro H. destruct (lookup name l) eqn:E; [|reflexivity].
+  exfalso. apply H. apply lookup_some_in in E. change name with (fst (name, a)). apply in_map. exact E.
+Qed.
+
+Lemma lookup_perm {A} (l l' : list (text * A)) name :
+  Permutation l l' -> NoDup (map fst l) -> lookup name l' = lookup name l.
+Proof.
+  intros HP Hnd.
+  assert (Hnd' : NoDup (map fst l')) by (eapply Permutation_NoDup; [apply Permutation_map; exact HP|exact Hnd]).
+  destruct (lookup name l) eqn:E.
+  - apply lookup_in_nodup; [exact Hnd'|]. eapply Permutation_in; [exact HP|]. apply lookup_some_in. exact E.
+  - apply lookup_notin_none. intro Hin. apply (lookup_none_notin _ _ E).
+    eapply Permutation_in; [apply Permutation_sym; apply Permutation_map; exact HP|exact Hin].
+Qed.
+
+Lemma nth_error_split_perm {A} (l : list A) i x :
+  nth_error l i = Some x -> Permutation l (x :: remove_at i l).
+Proof.
+  intro H. unfold remove_at.
+  destruct (nth_error_split l i H) as (l1 & l2 & -> & Hlen).
+  subst i. rewrite firstn_app, firstn_all, Nat.sub_diag. cbn [firstn]. rewrite app_nil_r.
+  replace (S (length l1)) with (length l1 + 1)%nat by lia.
+  rewrite skipn_app. rewrite skipn_all2 by lia. cbn [app].
+  replace (length l1 + 1 - length l1)%nat with 1%nat by lia. cbn [skipn].
+  apply Permutation_sym. apply Permutation_middle.
+Qed.
+
+Lemma insert_at_perm {A} (l : list A) j x : Permutation (x :: l) (insert_at j x l).
+Proof.
+  unfold insert_at. rewrite <- (firstn_skipn j l) at 1. apply Permutation_middle.
+Qed.
+
+Theorem move_permutes {A} (i j : nat) (l l' : list A) : move_list i j l = Ok l' -> Permutation l l'.
+Proof.
+  unfold move_list. destruct (Nat.leb (length l) i); [discriminate|].
+  destruct (Nat.leb (length l) j); [discriminate|].
+  destruct (Nat.eqb i j); [intro H; inversion H; subst; apply Permutation_refl|].
+  destruct (nth_error l i) as [x|] eqn:E; [|discriminate].
+  intro H. inversion H; subst. eapply Permutation_trans; [apply nth_error_split_perm; exact E|apply insert_at_perm].
+Qed.
+
+Theorem move_resolves_same_sheet {A} (i j : nat) (l l' : list (text * A)) :
+  move_list i j l = Ok l' -> NoDup (map fst l) -> forall name, lookup name l' = lookup name l.
+Proof. intros H Hnd name. apply lookup_perm; [exact (move_permutes _ _ _ _ H)|exact Hnd]. Qed.
+
+Theorem move_total {A} (i j : nat) (l : list A) :
+  (i < length l)%nat -> (j < length l)%nat -> exists l', move_list i j l = Ok l' /\ length l' = length l.
+Proof.
+  intros Hi Hj. unfold move_list.
+  destruct (Nat.leb (length l) i) eqn:E1; [apply Nat.leb_le in E1; lia|].
+  destruct (Nat.leb (length l) j) eqn:E2; [apply Nat.leb_le in E2; lia|].
+  destruct (Nat.eqb i j); [eexists; split; reflexivity|].
+  destruct (nth_error l i) as [x|] eqn:E; [|apply nth_error_None in E; lia].
+  eexists; split; [reflexivity|].
+  apply Permutation_length. apply Permutation_sym.
+  eapply Permutation_trans; [apply nth_error_split_perm; exact E|apply insert_at_perm].
+Qed.
+
+(* the moved sheet ends up at exactly the target position *)
+Theorem move_lands_at {A} (i j : nat) (l l' : list A) x :
+  move_list i j l = Ok l' -> nth_error l i = Some x -> nth_error l' j = Some x.
+Proof.
+  unfold move_list. destruct (Nat.leb (length l) i) eqn:E1; [discriminate|].
+  destruct (Nat.leb (length l) j) eqn:E2; [discriminate|].
+  destruct (Nat.eqb i j) eqn:E3.
+  - intros H Hx. inversion H; subst. apply Nat.eqb_eq in E3. subst. exact Hx.
+  - intros H Hx. rewrite Hx in H. inversion H; subst. unfold insert_at.
+    apply Nat.leb_gt in E1. apply Nat.leb_gt in E2.
+    assert (Hlen : length (remove_at i l) = (length l - 1)%nat).
+    { unfold remove_at. rewrite app_length, firstn_length, skipn_length. lia. }
+    rewrite nth_error_app2; rewrite firstn_length; [|lia].
+    replace (j - Nat.min j (length (remove_at i l)))%nat with 0%nat by lia. reflexivity.
+Qed.
+
+(* ---- the retargeted tree is again a tree the parser returns, in the new environment --------------- *)
+Lemma opt_z_eqb_true a b : opt_z_eqb a b = true -> a = b.
+Proof. destruct a, b; cbn [opt_z_eqb]; try discriminate; try reflexivity. intro H. apply Z.eqb_eq in H. congruence. Qed.
+Lemma opt_z_eqb_refl a : opt_z_eqb a a = true.
+Proof. destruct a; cbn [opt_z_eqb]; [apply Z.eqb_refl|reflexivity]. Qed.
+
+Lemma forallb_map_pass3 (P Q1 Q2 P' : ast -> bool) (f : ast -> ast) l :
+  Forall (fun x => P x = true -> Q1 x = true -> Q2 x = true -> P' (f x) = true) l ->
+  forallb P l = true -> forallb Q1 l = true -> forallb Q2 l = true -> forallb P' (map f l) = true.
+Proof.
+  induction 1 as [|x l Hx _ IH]; cbn [forallb map]; intros H1 H2 H3; [reflexivity|].
+  apply andb_true_iff in H1 as [? ?]. apply andb_true_iff in H2 as [? ?]. apply andb_true_iff in H3 as [? ?].
+  apply andb_true_iff. split; auto.
+Qed.
+
+Section Retarget.
+  Variables (m : pmode) (nm : names) (env env' : penv) (i : Z) (n : text) (rho : Z -> Z).
+
+  Definition retarget (e : ast) : ast := reindex rho (rename_node i n e).
+
+  Hypothesis HA : sheet_index env' (Some n) = Some (rho i).
+  Hypothesis HB : forall name k, sheet_index env (Some name) = Some k -> k <> i ->
+                                 sheet_index env' (Some name) = Some (rho k).
+  Hypothesis HC : sheet_index env' None = reindex_field rho (sheet_index env None).
+  Hypothesis HD : forall g, sheet_index env (Some g) = None -> g <> n -> sheet_index env' (Some g) = None.
+  Hypothesis Hdn : forall name ci, sheet_index env None = Some ci ->
+                                   get_defined_name nm env' name (rho ci) = get_defined_name nm env name ci.
+  Hypothesis Htb : pe_tables env' = pe_tables env.
+
+  Lemma is_table_pres name : is_table nm env' name = is_table nm env name.
+  Proof. unfold is_table. rewrite Htb. reflexivity. Qed.
+
+  Lemma valid_field_ok s k :
+    sheet_index env s = Some k -> sheet_index env' (rename_valid i n s k) = Some (rho k).
+  Proof.
+    intro H. unfold rename_valid. destruct s as [name|]; cbn [is_some].
+    - rewrite andb_true_r. destruct (k =? i) eqn:E.
+      + apply Z.eqb_eq in E. subst. exact HA.
+      + apply Z.eqb_neq in E. apply HB; assumption.
+    - rewrite andb_false_r. rewrite HC, H. reflexivity.
+  Qed.
+
+  Lemma ghost_field_ok s :
+    sheet_index env s = None -> not_named n s = true -> sheet_index env' s = None.
+  Proof.
+    intros H Hn. destruct s as [g|].
+    - apply HD; [exact H|]. cbn [not_named] in Hn. intro Heq. subst.
+      rewrite text_eqb_refl in Hn. discriminate.
+    - rewrite HC, H. reflexivity.
+  Qed.
+
+  Lemma ident_free_pres name : ident_free nm env name = true -> ident_free nm env' name = true.
+  Proof.
+    unfold ident_free. rewrite HC. destruct (sheet_index env None) as [ci|] eqn:E; [|discriminate].
+    cbn [reindex_field]. rewrite (Hdn name ci eq_refl), is_table_pres. auto.
+  Qed.
+
+  Lemma var_ok_pres name : var_ok nm env name = true -> var_ok nm env' name = true.
+  Proof.
+    unfold var_ok. rewrite HC. destruct (sheet_index env None) as [ci|] eqn:E; [|discriminate].
+    cbn [reindex_field]. rewrite (Hdn name ci eq_refl), is_table_pres. auto.
+  Qed.
+
+  Lemma param_ok_pres p : param_ok m nm env p = true -> param_ok m nm env' p = true.
+  Proof.
+    unfold param_ok. destruct (lp_id p); [auto|]. intro H.
+    apply andb_true_iff in H as [H H3]. apply andb_true_iff in H as [H1 H2].
+    rewrite (ident_free_pres _ H1), H2, H3. reflexivity.
+  Qed.
+
+  Lemma args_shape_retarget args : args_shape_ok (map retarget args) = args_shape_ok args.
+  Proof.
+    destruct args as [|a [|b r]]; [reflexivity| |].
+    - destruct a; try reflexivity.
+    - destruct a; reflexivity.
+  Qed.
+
+  Lemma is_lambdadef_retarget lam :
+    match retarget lam with ELambdaDef _ _ => true | _ => false end
+    = match lam with ELambdaDef _ _ => true | _ => false end.
+  Proof. destruct lam; reflexivity. Qed.
+
+  Lemma image_retarget e :
+    forall arg, image_at m nm env arg e = true -> no_ghost_range e = true -> no_ghost_named n e = true ->
+                image_at m nm env' arg (retarget e) = true.
+  Proof.
+    induction e using ast_rect'; intros arg Hi Hg Hn; unfold retarget;
+      cbn [rename_node reindex]; fold retarget;
+      cbn [image_at no_ghost_range no_ghost_named] in *;
+      try exact Hi.
+    - (* ERef *)
+      apply andb_true_iff in Hi as [Hi1 Hi2]. rewrite Hi2, andb_true_r. apply opt_z_eqb_true in Hi1.
+      destruct i0 as [k|]; cbn [reindex_field].
+      + rewrite (valid_field_ok s k (eq_sym Hi1)). apply opt_z_eqb_refl.
+      + assert (E : rename_wrong_ref n s = s) by (destruct s; reflexivity). rewrite E.
+        rewrite (ghost_field_ok s (eq_sym Hi1) Hn). reflexivity.
+    - (* ERange *)
+      apply andb_true_iff in Hi as [Hi1 Hi2]. rewrite Hi2, andb_true_r. apply opt_z_eqb_true in Hi1.
+      destruct i0 as [k|]; cbn [reindex_field].
+      + rewrite (valid_field_ok s k (eq_sym Hi1)). apply opt_z_eqb_refl.
+      + destruct s as [g|]; [discriminate|]. cbn [rename_wrong_range].
+        rewrite (ghost_field_ok None (eq_sym Hi1) Hn). reflexivity.
+    - apply andb_true_iff in Hi as [? ?]; apply andb_true_iff in Hg as [? ?]; apply andb_true_iff in Hn as [? ?].
+      apply andb_true_iff; split; auto.
+    - apply andb_true_iff in Hi as [? ?]; apply andb_true_iff in Hg as [? ?]; apply andb_true_iff in Hn as [? ?].
+      apply andb_true_iff; split; auto.
+    - apply andb_true_iff in Hi as [? ?]; apply andb_true_iff in Hg as [? ?]; apply andb_true_iff in Hn as [? ?].
+      apply andb_true_iff; split; auto.
+    - apply andb_true_iff in Hi as [? ?]; apply andb_true_iff in Hg as [? ?]; apply andb_true_iff in Hn as [? ?].
+      apply andb_true_iff; split; auto.
+    - apply andb_true_iff in Hi as [? ?]; apply andb_true_iff in Hg as [? ?]; apply andb_true_iff in Hn as [? ?].
+      apply andb_true_iff; split; auto.
+    - (* EFun *)
+      rewrite map_map. fold retarget.
+      apply andb_true_iff in Hi as [Hi Hi3]. apply andb_true_iff in Hi as [Hi1 Hi2].
+      change (map (fun x => reindex rho (rename_node i n x)) args) with (map retarget args).
+      rewrite Hi1, args_shape_retarget, Hi2. cbn [andb].
+      eapply forallb_map_pass3; [|exact Hi3|exact Hg|exact Hn].
+      eapply Forall_impl; [|exact H]. cbn beta. intros a Ha. apply Ha.
+    - (* ELambdaDef *)
+      apply andb_true_iff in Hi as [Hi Hi3]. apply andb_true_iff in Hi as [Hi1 Hi2].
+      rewrite Hi1. cbn [andb]. apply andb_true_iff; split; [|auto].
+      apply forallb_forall. intros p Hp. apply param_ok_pres. rewrite forallb_forall in Hi2. auto.
+    - (* ELambdaCall *)
+      rewrite map_map.
+      change (map (fun x => reindex rho (rename_node i n x)) args) with (map retarget args).
+      apply andb_true_iff in Hi as [Hi Hi4]. apply andb_true_iff in Hi as [Hi Hi3]. apply andb_true_iff in Hi as [Hi1 Hi2].
+      apply andb_true_iff in Hg as [Hg1 Hg2]. apply andb_true_iff in Hn as [Hn1 Hn2].
+      rewrite is_lambdadef_retarget, Hi1, args_shape_retarget, Hi3, (IHe false Hi2 Hg1 Hn1). cbn [andb].
+      eapply forallb_map_pass3; [|exact Hi4|exact Hg2|exact Hn2].
+      eapply Forall_impl; [|exact H]. cbn beta. intros a Ha. apply Ha.
+    - (* ENamedFun *)
+      rewrite map_map.
+      change (map (fun x => reindex rho (rename_node i n x)) args) with (map retarget args).
+      apply andb_true_iff in Hi as [Hi Hi4]. apply andb_true_iff in Hi as [Hi Hi3]. apply andb_true_iff in Hi as [Hi1 Hi2].
+      rewrite Hi1, Hi2, args_shape_retarget, Hi3. cbn [andb].
+      eapply forallb_map_pass3; [|exact Hi4|exact Hg|exact Hn].
+      eapply Forall_impl; [|exact H]. cbn beta. intros a Ha. apply Ha.
+    - (* EDefName *)
+      rewrite HC. destruct (sheet_index env None) as [ci|] eqn:E; [|discriminate].
+      cbn [reindex_field]. rewrite (Hdn n0 ci eq_refl). exact Hi.
+    - (* ETable *)
+      rewrite HC. destruct (sheet_index env None) as [ci|] eqn:E; [|discriminate].
+      cbn [reindex_field]. rewrite (Hdn n0 ci eq_refl), is_table_pres. exact Hi.
+    - (* EVar *)
+      apply andb_true_iff in Hi as [Hi1 Hi2]. rewrite Hi1, (var_ok_pres _ Hi2). reflexivity.
+    - (* EAt *)
+      apply andb_true_iff in Hi as [Hi Hi3]. rewrite Hi. cbn [andb]. auto.
+    - (* ESpill *)
+      apply andb_true_iff in Hi as [Hi Hi3]. rewrite Hi. cbn [andb]. auto.
+    - apply andb_true_iff in Hi as [? ?]; apply andb_true_iff in Hg as [? ?]; apply andb_true_iff in Hn as [? ?].
+      apply andb_true_iff; split; auto.
+    - auto.
+    - auto.
+  Qed.
+End Retarget.
